@@ -14,6 +14,7 @@ sys.path.insert(0, os.path.join(os.path.dirname(os.path.abspath(__file__)), ".."
 import vcheck as V
 
 PROP = "C16"
+CHUNK = 800
 STRICT_FIRST = False   # True: "first" = least index becomes a violation instead of a note (the statement leaves it open)
 
 
@@ -247,8 +248,15 @@ def body():
         # (B) real code
         drv = V.build_driver("lastger")
         bf, tf = sc.path("beh.json"), sc.path("trace.ndjson")
-        json.dump([dict(ng=b["ng"], steps=b["steps"]) for b in behs], open(bf, "w"))
-        V.run_driver(drv, ["-in", bf, "-out", tf])
+        # one driver process per chunk: every (re)start of the node leaves SQLite handles of the migration runner open
+        # (db.RunMigrations never closes its handle), which would exhaust the descriptor limit in one long process
+        with open(tf, "w") as whole:
+            for k in range(0, len(behs), CHUNK):
+                cf = sc.path("trace-%d.ndjson" % k)
+                json.dump([dict(ng=b["ng"], steps=b["steps"]) for b in behs[k:k + CHUNK]], open(bf, "w"))
+                V.run_driver(drv, ["-in", bf, "-out", cf])
+                whole.write(open(cf).read())
+                os.remove(cf)
         # (C) judge
         info = V.validate_traces("LastGERTrace.tla", "LastGERTrace.cfg", tf, sc)
         if not info["consumed_ok"]:
